@@ -21,7 +21,7 @@ Definition res_eqb (a b : res) : bool :=
   | RUnit, RUnit | RPanic, RPanic | RBad, RBad => true
   | RContent d, RContent d' => content_eqb d d'
   | RStd b d, RStd b' d' => Bool.eqb b b' && content_eqb d d'
-  | RCmp x, RCmp y => x =? y
+  | RCmp x e he, RCmp y e' he' => (x =? y) && Bool.eqb e e' && Bool.eqb he he'
   | RFault f, RFault g => fault_eqb f g
   | _, _ => false
   end.
